@@ -31,7 +31,8 @@ ASSUMPTIONS = [
 
 ALL_OPS = ["ctor_interval", "ctor_point", "ctor_bad", "crop", "erase", "space", "shift",
            "insert", "insert", "insert", "delete", "union", "difference", "intersection",
-           "mergeLabels", "appendTier", "dejitter", "morph", "new", "roundtrip", "json_open"]
+           "mergeLabels", "appendTier", "dejitter", "morph", "new", "roundtrip", "json_open",
+           "ctor_shared"]
 
 
 def config(rng, tier):
@@ -119,6 +120,18 @@ class C05Oracle(Oracle):
         if kind == "mut" and isinstance(out.recv, TextgridTier):
             self._check(out.recv, name, "returned" if out.ok else "raised-" + type(out.exc).__name__)
             run.stats["c05:checked"] += 1
+        touched = set()
+        if isinstance(out.recv, TextgridTier):
+            touched.add(id(out.recv))
+        if out.ok and isinstance(out.result, TextgridTier):
+            touched.add(id(out.result))
+        if kind != "env":
+            # heap-wide: no step may leave ANY live tier ill-formed (hidden aliasing
+            # between tiers shows up in a tier that was not operated on)
+            for h, o in run.world.heap.items():
+                if isinstance(o, TextgridTier) and id(o) not in touched:
+                    self._check(o, name, "bystander")
+                    run.stats["c05:checked_bystander"] += 1
         if out.ok:
             r = out.result
             if isinstance(r, TextgridTier) and kind in ("ctor", "copy", "alias"):
@@ -309,6 +322,23 @@ def generate(run, rng):
                     run.do({"op": "tg.getTier", "recv": tg2, "a": [nm], "out": w.new_handle()})
             evict()
             continue
+        elif op == "ctor_shared":
+            lists = w.live(list)
+            if not lists or rng.random() < 0.35:
+                k = "I" if (mix == "interval" or (mix == "both" and rng.random() < 0.6)) else "P"
+                run.do(g.step_mklist(w, k))
+                lists = w.live(list)
+                if len(lists) > 2:
+                    run.do({"op": "env.drop", "a": lists[:1]})
+                    lists = w.live(list)
+            lh = g.pick(lists)
+            k = g.list_kind(w.heap[lh])
+            same = w.live(IntervalTier if k == "I" else PointTier)
+            if same and rng.random() < 0.4:
+                st = {"op": "tier.new", "recv": g.pick(same), "a": [], "k": {"entries": H(lh)},
+                      "out": w.new_handle(), "tag": "E-shared-list"}
+            else:
+                st = g.ctor_from_list(w, lh)
         elif op == "json_open":
             fileno[0] += 1
             path = f"/simfs/c05_{fileno[0]}.json"
